@@ -163,6 +163,7 @@ def _fixture(kind, text, project_id, is_admin, namespace=''):
     from mistral.db.v2.sqlalchemy import models
     from mistral.services import workflows as wf_service
     from mistral.services import workbooks as wb_service
+    env.fast_schema_check()
     tmp = minidb.MiniDB(id_prefix='def%d' % len(_FIXTURES))
     with minidb.installed(tmp, per_thread_tx_lock=False), \
             env.auth_ctx(project_id, is_admin):
